@@ -1,6 +1,18 @@
 import OFCore.PeriodText
 import OFCore.Drv.Util
-/-! Line protocol for the calendar / period / text domains (`cal`, `per`, `txt`). -/
+/-! Line protocol for the calendar / period / text domains (`cal`, `per`, `txt`).
+
+```
+per <op> <unit/Y,M,D/size> [args]     stop days size_in_* subperiods:<unit> offset offset_rt ioffset contains intersection
+                                      <named period> str date is_eternal key weight isofmt
+txt parse|instant|punit|pperiod <hex> periods.period / periods.instant / _parsers.parse_unit / parse_period on ASCII text
+txt rt|disk|diske|pair|irt|ispell|istr print / parse round trips
+txt mkinstant|mkperiod|idate <value>  periods.instant / periods.period / periods.instant_date on any argument:
+      N  None        I:<int>        S:<hex> str     E:<unit> DateUnit member (a str)     T:Y,M,D Instant
+      P:<period>     D: DP: DT:Y,M,D datetime.date / pendulum.Date / datetime.datetime
+      L:a,b,.. list  U:a,b,.. tuple  B:<hex> bytes   R:n range(n)     (sequences of ints)     O:<kind> / F:<float> anything else
+```
+-/
 namespace OFCore.Drv
 
 def showPeriod (p : Period) : String := s!"{p.unit.name}/{showDate p.start}/{p.size}"
@@ -84,11 +96,51 @@ def handlePer (args : List String) : String :=
       | "last_26_weeks", [] => showE showPeriod (p.lastNWeeks 26 26)
       | "last_52_weeks", [] => showE showPeriod (p.lastNWeeks 52 52)
       | "str", [] => tohex p.text
+      | "date", [] => showE showDate p.date
+      | "is_eternal", [] => s!"{showBool p.isEternal},{showBool p.start.isEternal}"
+      | "key", [] => tohex (keyPeriodSize p)
+      | "weight", [] => toString (unitWeight p.unit)
+      | "isofmt", [] => s!"{showBool (Generated.isoformatUnits.contains p.unit.name)},{showBool (Generated.isocalendarUnits.contains p.unit.name)}"
       | _, _ => "BAD"
   | _ => "BAD"
 
+/-- the argument of `periods.instant` / `periods.period` as the harness writes it -/
+def parsePyVal? (s : String) : Option PyVal :=
+  let ints (t : String) : Option (List Int) := if t = "" then some [] else (t.splitOn ",").mapM String.toInt?
+  if s = "N" then some .none
+  else match s.splitOn ":" with
+  | ["I", i] => i.toInt?.map .int
+  | ["S", h] => (unhex h).map .str
+  | ["E", u] => (DUnit.ofName u).map fun u => .str u.name.toList
+  | ["T", d] => (parseDate? d).map .instant
+  | ["P", p] => (parsePeriod? p).map .period
+  | ["D", d] => (parseDate? d).map .date
+  | ["DP", d] => (parseDate? d).map .date
+  | ["DT", d] => (parseDate? d).map .date
+  | ["L", t] => (ints t).map .seq
+  | ["U", t] => (ints t).map .seq
+  | ["B", h] => (unhex h).map fun cs => .seq (cs.map fun c => (c.toNat : Int))
+  | ["R", n] => n.toNat?.map fun n => .seq ((List.range n).map fun (i : Nat) => (i : Int))
+  | ["O", _] => some .other
+  | ["F", _] => some .other
+  | _ => none
+
 def handleTxt (args : List String) : String :=
   match args with
+  | ["mkinstant", v] => match parsePyVal? v with
+    | some v => showE showDate (instantOf v) | none => "BAD"
+  | ["mkperiod", v] => match parsePyVal? v with
+    | some v => showE showPeriod (periodOf v) | none => "BAD"
+  | ["idate", v] => match parsePyVal? v with
+    | some .none => showE showOptDate (instantDate none)
+    | some (.instant c) => showE showOptDate (instantDate (some c))
+    | _ => "BAD"
+  | ["punit", h] => match unhex h with
+    | some cs => showE DUnit.name (parseUnit cs) | none => "BAD"
+  | ["punit"] => showE DUnit.name (parseUnit [])
+  | ["pperiod", h] => match unhex h with
+    | some cs => showE showPeriod (parseIsoPeriod cs) | none => "BAD"
+  | ["pperiod"] => showE showPeriod (parseIsoPeriod [])
   | ["parse", h] => match unhex h with
     | some cs => showE showPeriod (parsePeriod cs) | none => "BAD"
   | ["parse"] => showE showPeriod (parsePeriod [])
@@ -106,6 +158,14 @@ def handleTxt (args : List String) : String :=
   | ["disk", ps] => match parsePeriod? ps with
     | some p =>
       let t := p.text
+      match parsePeriod t with
+      | .ok q => s!"{tohex t}|{showPeriod q}|{tohex q.text}"
+      | .error _ => s!"{tohex t}|ERR"
+    | none => "BAD"
+  -- a store created with `is_eternal=True` files every value under the ETERNITY period, whatever period is given
+  | ["diske", ps] => match parsePeriod? ps with
+    | some _ =>
+      let t := Period.eternity.text
       match parsePeriod t with
       | .ok q => s!"{tohex t}|{showPeriod q}|{tohex q.text}"
       | .error _ => s!"{tohex t}|ERR"
